@@ -29,6 +29,8 @@ WITNESSES: list[tuple[str, str, tuple[str, ...]]] = [
     ("dataclass_self_attr",
      "from dataclasses import dataclass\n@dataclass\nclass D:\n    x: int = 0\n    def setup(self) -> None:\n        self.y: str = 'a'\n", AST),
     ("enum_parse_only", "import enum\nclass Color(enum.Enum):\n    RED = 1\n    GREEN = 'g'\n", ("parse",)),
+    ("abstract_subclass_parse_only",
+     "import abc\nclass A(abc.ABC):\n    @abc.abstractmethod\n    def m(self) -> int: ...\nclass B(A):\n    pass\n", ("parse",)),
     ("namedtuple_default_parse_only", "from typing import NamedTuple\nclass P(NamedTuple):\n    a: int\n    b: str = ''\n", ("parse",)),
     # ---- inspect mode (runtime introspection loses what only the source says)
     ("inspect_union_annotation", "def f(x: int | None) -> None:\n    pass\n", ("inspect",)),
